@@ -12,11 +12,13 @@ macro_rules! c { ($v:ident, $q:expr, $g:expr, $t:ty, $m:ty, $tr:ty) => { $v.push
 fn cfgs() -> Vec<Entry> {
     let mut v: Vec<Entry> = Vec::new();
     #[cfg(feature = "alloc")] { c!(v, true,"general",W8D,Heap,dyn Cloneable); }
-    #[cfg(feature = "alloc")] { c!(v, true,"general",B1D,Heap,dyn Cloneable); }
-    #[cfg(feature = "alloc")] { c!(v, true,"general",T3D,Heap,dyn Cloneable); }
-    #[cfg(feature = "alloc")] { c!(v, true,"general",A32D,Heap,dyn Cloneable); }
+    #[cfg(feature = "alloc")] { c!(v, true,"general",B1D,Heap,dyn Cloneable + Send); }
+    #[cfg(feature = "alloc")] { c!(v, true,"general",T3D,Heap,dyn Cloneable + Sync); }
+    #[cfg(feature = "alloc")] { c!(v, true,"general",A32D,Heap,dyn Cloneable + Send + Sync); }
     #[cfg(feature = "alloc")] { c!(v, true,"general",ZD,Heap,dyn Cloneable); }
-    #[cfg(feature = "alloc")] { c!(v, true,"general",W8D,Heap,dyn TNone); }
+    #[cfg(feature = "alloc")] { c!(v, true,"general",W8D,Heap,dyn TNone);
+    #[cfg(feature = "alloc")] { c!(v, true,"general",H2D,Heap,dyn Send); }
+    #[cfg(feature = "alloc")] { c!(v, true,"general",Q16D,Heap,dyn Sync); } }
     #[cfg(feature = "alloc")] { c!(v, true,"general",A64D,Heap,dyn Cloneable); }
     #[cfg(feature = "alloc")] { c!(v, true,"general",F40D,Heap,dyn Cloneable); }
     v
